@@ -346,7 +346,8 @@ class _IxState:
         return bool(self._truth)
 
 
-@harness('I2r', targets='kopf._core.engines.indexing.index_resource', props=['C17'],
+@harness('I2r', targets='kopf._core.engines.indexing.index_resource', props=['C17', 'C15'],
+         prop_clauses={'C15': ['live_is_indexed']},
          clauses=['no_indexing_handlers_noop', 'deleted_discards', 'live_is_indexed', 'errors_ignored_by_default',
                   'failures_remembered'],
          canaries=['canary.always_invokes'],
@@ -626,7 +627,8 @@ class _DoneTask:
     def cancel(self): return False
 
 
-@harness('Q7', targets='kopf._core.reactor.queueing.watcher', props=['C17'],
+@harness('Q7', targets='kopf._core.reactor.queueing.watcher', props=['C17', 'C03'],
+         prop_clauses={'C03': ['listed_drops_kind_toggle', 'no_toggle_without_worker', 'gate_reference_kept']},
          clauses=['listed_drops_kind_toggle', 'kind_toggle_dropped_only_on_listed', 'object_toggle_before_spawn',
                   'object_toggle_only_while_off', 'no_toggle_without_worker', 'gate_reference_kept'],
          canaries=['canary.always_toggles', 'canary.never_drops'],
